@@ -1,6 +1,7 @@
 import FranzVerif.Model.Producer
 import FranzVerif.Proof.Producer
 import FranzVerif.Proof.ProducerFacts
+import FranzVerif.Proof.ProducerFull
 /-! C03 — producer buffering limits and Flush completion, over all accepted histories. -/
 namespace Props.C03
 open Model.Producer Proof.Producer
@@ -42,6 +43,32 @@ theorem blocking_discipline (c : Cfg) (h₁ h₂ : List Ev) (id : Id)
     refine ⟨c2, ?_, ?_⟩
     · rw [(hi.recSome id r hfd).hkind]; simpa using c1
     · simp [sawFullDuringCall, h1, hfd, c4]
+
+/-- (b, second half) A record's unbuffered hook / promise gets ErrMaxBuffered only if the record was never
+admitted and the buffer was full at some point during its call. -/
+theorem maxbuffered_discipline (c : Cfg) (h₁ h₂ : List Ev) (id : Id) (e : Err)
+    (hacc : (run c {} (h₁ ++ Ev.hookU id e :: h₂)).isSome) (he : e.cls = ErrClass.maxBuffered) :
+    id ∉ admittedIds h₁ ∧ sawFullDuringCall c id h₁ = true := by
+  obtain ⟨s₁, h1, hchk, _⟩ := run_split hacc
+  have hi := inv_of_run h1
+  cases hfd : find s₁.recs id with
+  | none => simp [check, hfd] at hchk
+  | some r =>
+    simp [check, hfd, ite_some_eq_none] at hchk
+    obtain ⟨ha, hsf⟩ := hchk.2.2.2 (by simp [isMaxBuf, he])
+    refine ⟨?_, by simp [sawFullDuringCall, h1, hfd, hsf]⟩
+    have := (hi.recSome id r hfd).hadm
+    rw [ha] at this
+    exact List.count_eq_zero.1 (by simpa using this)
+
+/-- (b) in history terms: what `sawFullDuringCall` (read off the monitor state in (b) above) means.  At some
+prefix `p` of the history the record had been passed to Produce, was neither admitted nor finished, and
+the buffer as a function of `p` alone — `inBuffer p` and the sizes of its records — was at its limit for a
+record of this size. -/
+theorem sawFull_means_buffer_was_full (c : Cfg) (h : List Ev) (id : Id) (hs : sawFullDuringCall c id h = true) :
+    ∃ p q, h = p ++ q ∧ called id p = true ∧ id ∉ admittedIds p ∧ promisesOf id p = [] ∧
+      full c (inBuffer p).length ((inBuffer p).map (sizeOfId p)).sum (sizeOfId h id) = true :=
+  sawFullDuringCall_sound hs
 
 /-- (c) Flush returns nil only after every record that was admitted or blocked before it began has
 been finished: promise called and accounting released (or, if it never got admitted, no longer blocked). -/
@@ -114,5 +141,20 @@ example : accepts { maxRecs := 1, maxBytes := 0, manual := false }
      .hookU 1 .ok, .promise 1 .ok, .release 1 0 0,
      .unblock 2, .admit 2 1 2 2, .ret 2, .hookU 2 .ok, .promise 2 .ok, .release 2 0 0,
      .flushEnd 1 true, .closeStart, .closeEnd, .quiesce 0 0] = true := by decide
+
+/-- Non-vacuity of (c): the same history in the shape `h₁ ++ flushStart k :: h₂ ++ flushEnd k true :: h₃`,
+with record 1 in the buffer when the Flush begins (and record 2 blocked). -/
+example :
+    (run { maxRecs := 1, maxBytes := 0, manual := false } {}
+      ([.call 1 .produce 3, .hookB 1, .admit 1 1 3 3, .ret 1,
+        .call 2 .produce 2, .hookB 2, .block 2,
+        .call 3 .try_ 1, .hookB 3, .ret 3, .hookU 3 ⟨.maxBuffered, 7⟩, .promise 3 ⟨.maxBuffered, 7⟩]
+       ++ Ev.flushStart 1 ::
+       [.hookU 1 .ok, .promise 1 .ok, .release 1 0 0,
+        .unblock 2, .admit 2 1 2 2, .ret 2, .hookU 2 .ok, .promise 2 .ok, .release 2 0 0]
+       ++ Ev.flushEnd 1 true :: [.closeStart, .closeEnd, .quiesce 0 0])).isSome = true ∧
+    1 ∈ inBuffer [.call 1 .produce 3, .hookB 1, .admit 1 1 3 3, .ret 1,
+        .call 2 .produce 2, .hookB 2, .block 2,
+        .call 3 .try_ 1, .hookB 3, .ret 3, .hookU 3 ⟨.maxBuffered, 7⟩, .promise 3 ⟨.maxBuffered, 7⟩] := by decide
 
 end Props.C03
